@@ -28,7 +28,7 @@ use yv_harness::{coq, json_str};
 // path keys
 
 /// (key, path).  Keys 0 1 2 are the files behind the standard descriptors.
-const PATHS: [(u64, &str); 14] = [
+const PATHS: [(u64, &str); 15] = [
     (0, "/dev/stdin"),
     (1, "/dev/stdout"),
     (2, "/dev/stderr"),
@@ -39,6 +39,7 @@ const PATHS: [(u64, &str); 14] = [
     (7, "/d"),   // always a directory
     (8, "/d/x"), // regular or missing
     (9, "/s"),   // the script, when the shell is started as `yash /s`
+    (10, "/dev/null"), // always an empty regular file
     (20, "/s0"), // scripts read with the . built-in
     (21, "/s1"),
     (22, "/s2"),
@@ -242,6 +243,8 @@ enum Kind {
     Exec,
     /// exec with an operand that cannot be invoked
     ExecFail,
+    /// `cmd &` followed by `wait`
+    Async,
 }
 
 /// The file named by the operand of the . built-in.
@@ -267,6 +270,7 @@ enum Item {
     Pipe(usize),
     Limit(Option<u64>),
     Noclobber(bool),
+    Errexit(bool),
 }
 
 impl Redir {
@@ -279,7 +283,12 @@ impl Redir {
     /// (text on the command line, here-document body to put after the line)
     fn text(&self, heredoc_no: &mut usize) -> (String, Option<String>) {
         let fd = if self.explicit || self.fd != self.default_fd() { self.fd.to_string() } else { String::new() };
-        let p = |k: &Option<u64>| k.map(path_of).unwrap_or(BAD_PATH).to_string();
+        // some operands are given through a parameter expansion
+        let p = |k: &Option<u64>| match k {
+            Some(k) if (3..=8).contains(k) && (k + self.fd) % 3 == 0 => format!("\"$p{k}\""),
+            Some(k) => path_of(*k).to_string(),
+            None => BAD_PATH.to_string(),
+        };
         match &self.body {
             Body::File(op, k) => {
                 let o = match op {
@@ -388,6 +397,7 @@ impl Item {
         match self {
             Item::Limit(l) => format!("lim {}\n", l.unwrap_or(0)),
             Item::Noclobber(b) => format!("set {}C\n", if *b { "-" } else { "+" }),
+            Item::Errexit(b) => format!("set {}e\n", if *b { "-" } else { "+" }),
             Item::Dot(via, redirs, target, body) => {
                 let (rs, bodies) = redirs_text(redirs);
                 let path = match target {
@@ -450,6 +460,14 @@ impl Item {
                     Kind::NotFound => "nosuchcommand".to_string(),
                     Kind::Empty => String::new(),
                     Kind::Exec => "exec".to_string(),
+                    Kind::Async => {
+                        let head = match variant % 3 {
+                            0 => "fds I",
+                            1 => "{ fds I; }",
+                            _ => "f",
+                        };
+                        return format!("{head} {rs} &\n{bodies}wait\n");
+                    }
                     Kind::ExecFail => match variant % 2 {
                         0 => "exec /no/such/utility".to_string(),
                         _ => "exec nosuchutility arg".to_string(),
@@ -465,6 +483,7 @@ impl Item {
             Item::Limit(None) => "(ILimit None)".into(),
             Item::Limit(Some(l)) => format!("(ILimit (Some {l}))"),
             Item::Noclobber(b) => format!("(INoclobber {})", coq::b(*b)),
+            Item::Errexit(b) => format!("(IErrexit {})", coq::b(*b)),
             Item::Dot(via, redirs, target, body) => {
                 let rs: Vec<String> = redirs.iter().map(|r| r.coq()).collect();
                 let b: Vec<String> = body.iter().map(|i| i.coq(interactive)).collect();
@@ -497,6 +516,7 @@ impl Item {
                     Kind::NotFound => "KNotFound",
                     Kind::Empty => "KEmpty",
                     Kind::Exec => "KExec",
+                    Kind::Async => "KAsync",
                     Kind::ExecFail => if interactive { "(KExecFail true)" } else { "(KExecFail false)" },
                 };
                 let rs: Vec<String> = redirs.iter().map(|r| r.coq()).collect();
@@ -569,6 +589,7 @@ impl InitFiles {
             }
         }
         v.push("(7, Dir)".into());
+        v.push("(10, Reg (@nil N) false)".into());
         coq::list(&v)
     }
 }
@@ -638,7 +659,7 @@ impl Parser {
                         }
                     }
                 }
-                Item::Limit(_) | Item::Noclobber(_) => match self.next_if_tag("T") {
+                Item::Limit(_) | Item::Noclobber(_) | Item::Errexit(_) => match self.next_if_tag("T") {
                     Some(o) => {
                         let t = match item {
                             Item::Limit(l) => StepOf::Limit(*l),
@@ -667,9 +688,12 @@ impl Parser {
                             match self.fin.clone() {
                                 Some(f) => {
                                     if child.is_some() || inside.is_some() {
-                                        self.problem = Some("shell exit after a command substitution".into());
+                                        // the command itself made the shell exit (errexit)
+                                        self.steps.push((StepOf::Child, child, f.clone(), true));
+                                        self.steps.push((StepOf::Cmd(*kind, redirs.clone()), inside, f, true));
+                                    } else {
+                                        self.steps.push((StepOf::Child, None, f, true))
                                     }
-                                    self.steps.push((StepOf::Child, None, f, true))
                                 }
                                 None => self.problem = Some("no final state".into()),
                             }
@@ -714,7 +738,7 @@ impl Parser {
                         }
                     }
                 }
-                Item::Dot(via, redirs, _, body) => {
+                Item::Dot(_via, redirs, _, body) => {
                     if let Some(b) = self.next_if_tag("D") {
                         self.steps.push((StepOf::Push(Kind::Group, redirs.clone()), Some(b.clone()), b, false));
                         if self.items(body) {
@@ -730,7 +754,7 @@ impl Parser {
                     } else {
                         match self.next_if_tag("T") {
                             Some(o) => self.steps.push((StepOf::Push(Kind::Group, redirs.clone()), None, o, false)),
-                            None if self.it.peek().is_some() || *via => {
+                            None if self.it.peek().is_some() => {
                                 self.problem = Some("unexpected end after the . built-in".into());
                                 return true;
                             }
@@ -761,8 +785,16 @@ impl Parser {
                         // the redirections were refused
                         match self.next_if_tag("T") {
                             Some(o) => self.steps.push((StepOf::Push(*kind, redirs.clone()), None, o, false)),
+                            None if self.it.peek().is_some() => {
+                                self.problem = Some("unexpected observation after a refused compound command".into());
+                                return true;
+                            }
                             None => {
-                                self.problem = Some("missing observation after a refused compound command".into());
+                                // errexit: the shell exits
+                                match self.fin.clone() {
+                                    Some(f) => self.steps.push((StepOf::Push(*kind, redirs.clone()), None, f, true)),
+                                    None => self.problem = Some("no final state".into()),
+                                }
                                 return true;
                             }
                         }
@@ -774,7 +806,7 @@ impl Parser {
     }
 }
 
-const PREAMBLE: &str = "f() { fds I; }\n";
+const PREAMBLE: &str = "f() { fds I; }\np3=/a p4=/b p5=/c p6=/e p7=/d p8=/d/x\n";
 
 /// How the shell is started.
 #[derive(Clone, Copy, Debug, Default, PartialEq)]
@@ -825,6 +857,7 @@ fn run_case(init: &InitFiles, items: &[Item], ctx: &Ctx) -> Outcome {
     for (i, c) in &dots {
         files.push((path_of(20 + *i as u64).to_string(), c.clone().into_bytes()));
     }
+    files.push(("/dev/null".to_string(), vec![]));
     // the directory /d always exists; /d/x only if listed
     let have_dx = init.files.iter().any(|(k, c)| *k == 8 && c.is_some());
     if !have_dx {
@@ -980,8 +1013,9 @@ fn random_kind(r: &mut Rng) -> Kind {
         43..=58 => Kind::Group,
         59..=67 => Kind::Subshell,
         68..=76 => Kind::NotFound,
-        77..=86 => Kind::Empty,
-        87..=90 => Kind::ExecFail,
+        77..=83 => Kind::Empty,
+        84..=87 => Kind::Async,
+        88..=90 => Kind::ExecFail,
         _ => Kind::Exec,
     }
 }
@@ -1022,7 +1056,8 @@ fn random_items_at(r: &mut Rng, len: usize, wide: bool, depth: usize, dots: &mut
                 items.push(Item::Subst(kind, random_redirs(r, 2, wide)));
             }
             109..=111 => items.push(Item::Pipe(2 + r.below(3))),
-            0..=5 => items.push(Item::Noclobber(r.chance(2, 3))),
+            0..=4 => items.push(Item::Noclobber(r.chance(2, 3))),
+            5 => items.push(Item::Errexit(r.chance(1, 2))),
             6..=11 if depth == 0 => {
                 let l = if r.chance(1, 4) { None } else { Some(r.range(10, 16) as u64) };
                 items.push(Item::Limit(l));
@@ -1050,6 +1085,18 @@ fn random_items_at(r: &mut Rng, len: usize, wide: bool, depth: usize, dots: &mut
         }
     }
     items
+}
+
+fn without_async(items: &[Item]) -> Vec<Item> {
+    items
+        .iter()
+        .map(|i| match i {
+            Item::Cmd(Kind::Async, v, rs) => Item::Cmd(Kind::Subshell, *v, rs.clone()),
+            Item::Group(k, v, rs, body) => Item::Group(*k, *v, rs.clone(), without_async(body)),
+            Item::Dot(via, rs, t, body) => Item::Dot(*via, rs.clone(), *t, without_async(body)),
+            other => other.clone(),
+        })
+        .collect()
 }
 
 /// Number of script files used by the items (nested ones included).
@@ -1087,6 +1134,15 @@ impl Emitter {
     /// Runs and writes one case; returns false if the case was outside the
     /// domain (a limit below an open descriptor) and was dropped.
     fn emit(&mut self, stream: &str, init: &InitFiles, items: &[Item], ctx: &Ctx, tags: &[&str]) -> bool {
+        // an interactive shell reports every asynchronous job on its standard
+        // error: outside the model
+        let no_async;
+        let items = if ctx.interactive {
+            no_async = without_async(items);
+            &no_async[..]
+        } else {
+            items
+        };
         let out = run_case(init, items, ctx);
         let script_file = ctx.script_file;
         let (script_text, dots) = build(items);
@@ -1144,13 +1200,13 @@ impl Emitter {
             // a restored one, so the oracle rejects the case
             let _ = p;
             format!(
-                "({}, {}, {}, [mkStep None (mkObs [] [] []) true])%N",
+                "(inl ({}, {}, {}, [mkStep None (mkObs [] [] []) true]))%N",
                 init.coq(script_opt, &dots),
                 coq::list(&items_coq[..1.min(items_coq.len())]),
                 obs_coq(&out.init)
             )
         } else {
-            format!("({}, {}, {}, {})%N", init.coq(script_opt, &dots), coq::list(&items_coq), obs_coq(&out.init), coq::list(&steps))
+            format!("(inl ({}, {}, {}, {}))%N", init.coq(script_opt, &dots), coq::list(&items_coq), obs_coq(&out.init), coq::list(&steps))
         };
         let shown: Vec<String> = out
             .steps
@@ -1374,6 +1430,14 @@ fn explore(script: &str, interactive: bool) {
             env.builtins.insert("fds", Builtin::new(Type::Mandatory, fds_main));
             env.builtins.insert("sfds", Builtin::new(Type::Special, fds_main));
             env.builtins.insert("lim", Builtin::new(Type::Mandatory, lim_main));
+            // symbolic links for experiments: /la -> a (regular), /ld -> d, /lx -> nothing
+            for (l, t) in [("/la", "a"), ("/ld", "d"), ("/lx", "nosuch"), ("/lla", "la")] {
+                let inode = yash_env::system::r#virtual::Inode {
+                    body: FileBody::Symlink { target: yash_env::path::PathBuf::from(t) },
+                    permissions: Default::default(),
+                };
+                state.borrow_mut().file_system.save(l, Rc::new(RefCell::new(inode))).unwrap();
+            }
         },
     );
     STATE.with(|s| *s.borrow_mut() = None);
@@ -1386,7 +1450,198 @@ fn explore(script: &str, interactive: bool) {
         println!("final: {}", obs_show(&snapshot(proc.fds().iter(), &st.file_system, "F", true, 0)));
     }
     println!("status={} panicked={:?} deadlock={} timeout={}", o.status, o.panicked, o.deadlock, o.timeout);
+    println!("stdout:\n{}", o.stdout);
     println!("stderr:\n{}", o.stderr);
+}
+
+// ---------------------------------------------------------------------------
+// noclobber and symbolic links: the real binary on the real OS (the simulated
+// OS does not follow symbolic links)
+
+/// Builds the real shell binary from $YV_REPO (default /repo); returns its path.
+/// A build failure is a harness error, not a verdict.
+fn build_yash3() -> String {
+    let repo = std::env::var("YV_REPO").unwrap_or_else(|_| "/repo".to_string());
+    let target = std::env::var("CARGO_TARGET_DIR").unwrap_or_else(|_| "/verif/.cache/target".to_string());
+    let target = format!("{target}/yash3");
+    let out = std::process::Command::new("cargo")
+        .args(["build", "--offline", "--locked", "-p", "yash-cli", "--manifest-path"])
+        .arg(format!("{repo}/Cargo.toml"))
+        .env("CARGO_TARGET_DIR", &target)
+        .env("CARGO_NET_OFFLINE", "true")
+        .output()
+        .expect("cargo");
+    if !out.status.success() {
+        eprintln!("building yash3 failed:\n{}", String::from_utf8_lossy(&out.stderr));
+        std::process::exit(3);
+    }
+    format!("{target}/debug/yash3")
+}
+
+#[derive(Clone, Copy, Debug, PartialEq)]
+enum LNode {
+    Reg,
+    Fifo,
+    Dev, // name 9 = /dev/null
+    Dir,
+    Link(u64),
+}
+
+impl LNode {
+    fn coq(&self) -> String {
+        match self {
+            LNode::Reg => "LReg".into(),
+            LNode::Fifo => "LFifo".into(),
+            LNode::Dev => "LDev".into(),
+            LNode::Dir => "LDir".into(),
+            LNode::Link(t) => format!("(LLink {t})"),
+        }
+    }
+}
+
+fn lname(n: u64) -> String {
+    if n == 9 { "/dev/null".to_string() } else { format!("n{n}") }
+}
+
+/// Runs `set -C; { :; } > NAME` with the real binary in a scratch directory
+/// holding the given names; returns the Coq term of what was observed.
+fn run_link_case(yash3: &str, dir: &std::path::Path, nodes: &[(u64, LNode)], name: u64) -> String {
+    use std::process::Stdio;
+    use std::time::{Duration, Instant};
+    let _ = std::fs::remove_dir_all(dir);
+    std::fs::create_dir_all(dir).expect("scratch directory");
+    let mut keep_open = vec![];
+    for (n, node) in nodes {
+        let p = dir.join(lname(*n));
+        match node {
+            LNode::Reg => std::fs::write(&p, b"old").expect("write"),
+            LNode::Dir => std::fs::create_dir(&p).expect("mkdir"),
+            LNode::Dev => (),
+            LNode::Fifo => {
+                let st = std::process::Command::new("mkfifo").arg(&p).status().expect("mkfifo");
+                assert!(st.success(), "mkfifo failed");
+                // a reader, so that opening the FIFO for writing does not block
+                keep_open.push(std::fs::OpenOptions::new().read(true).write(true).open(&p).expect("open fifo"));
+            }
+            LNode::Link(t) => std::os::unix::fs::symlink(lname(*t), &p).expect("symlink"),
+        }
+    }
+    let existed = std::fs::symlink_metadata(dir.join(lname(name))).is_ok();
+    let script = format!("set -C; {{ :; }} > {}", lname(name));
+    let mut child = std::process::Command::new(yash3)
+        .arg("-c")
+        .arg(&script)
+        .current_dir(dir)
+        .env_clear()
+        .env("PATH", "")
+        .stdin(Stdio::null())
+        .stdout(Stdio::null())
+        .stderr(Stdio::null())
+        .spawn()
+        .expect("spawn yash3");
+    let t0 = Instant::now();
+    let status = loop {
+        match child.try_wait() {
+            Ok(Some(st)) => break st,
+            Ok(None) => {
+                if t0.elapsed() > Duration::from_secs(30) {
+                    let _ = child.kill();
+                    let _ = child.wait();
+                    eprintln!("yash3 timed out (harness error, not a verdict) on: {script}");
+                    std::process::exit(3);
+                }
+                std::thread::sleep(Duration::from_millis(1));
+            }
+            Err(e) => {
+                eprintln!("waiting for yash3 failed: {e}");
+                std::process::exit(3);
+            }
+        }
+    };
+    drop(keep_open);
+    let ok = status.code() == Some(0);
+    // a regular file must still have its content (nothing is written by `:`,
+    // but O_TRUNC would show)
+    let mut truncated = false;
+    for (n, node) in nodes {
+        if *node == LNode::Reg && std::fs::read(dir.join(lname(*n))).map(|c| c != b"old").unwrap_or(true) {
+            truncated = true;
+        }
+    }
+    if !ok && !truncated {
+        return "Refused".to_string();
+    }
+    if !existed {
+        return "Created".to_string();
+    }
+    // what the name resolves to, by the OS
+    let kind = match std::fs::metadata(dir.join(lname(name))) {
+        Ok(m) => {
+            use std::os::unix::fs::FileTypeExt as _;
+            let t = m.file_type();
+            if t.is_file() {
+                "LReg"
+            } else if t.is_dir() {
+                "LDir"
+            } else if t.is_fifo() {
+                "LFifo"
+            } else {
+                "LDev"
+            }
+        }
+        Err(_) => "LReg", // a dangling link that was "opened": it now names a new regular file
+    };
+    format!("(Opened {kind})")
+}
+
+fn link_stream(e: &mut Emitter, seed: u64) {
+    let yash3 = build_yash3();
+    let scratch = std::path::PathBuf::from(format!("/verif/.cache/c09_scratch/{seed}"));
+    let mut cases: Vec<(Vec<(u64, LNode)>, u64)> = vec![];
+    // name 1 is what the redirection names; it is the target itself or a chain
+    // of 1..3 links to it
+    for target in [Some(LNode::Reg), Some(LNode::Fifo), Some(LNode::Dev), Some(LNode::Dir), None] {
+        for chain in 0..=3u64 {
+            let mut nodes = vec![];
+            for i in 0..chain {
+                let next = if i + 1 == chain && target == Some(LNode::Dev) { 9 } else { i + 2 };
+                nodes.push((i + 1, LNode::Link(next)));
+            }
+            match target {
+                Some(LNode::Dev) if chain == 0 => continue, // /dev/null itself is not in the directory
+                Some(LNode::Dev) => nodes.push((9, LNode::Dev)),
+                Some(t) => nodes.push((chain + 1, t)),
+                None => (),
+            }
+            cases.push((nodes, 1));
+        }
+    }
+    // cycles
+    cases.push((vec![(1, LNode::Link(1))], 1));
+    cases.push((vec![(1, LNode::Link(2)), (2, LNode::Link(1))], 1));
+    // a link to a regular file next to other names
+    cases.push((vec![(1, LNode::Link(3)), (2, LNode::Reg), (3, LNode::Reg), (4, LNode::Link(2))], 4));
+    for (i, (nodes, name)) in cases.iter().enumerate() {
+        let observed = run_link_case(&yash3, &scratch.join(format!("{i}")), nodes, *name);
+        let l: Vec<String> = nodes.iter().map(|(n, k)| format!("({n}, {})", k.coq())).collect();
+        let term = format!("(inr ({}, {name}, {observed}))%N", coq::list(&l));
+        let shown: Vec<String> = nodes
+            .iter()
+            .map(|(n, k)| match k {
+                LNode::Link(t) => format!("{} -> {}", lname(*n), lname(*t)),
+                k => format!("{}: {:?}", lname(*n), k),
+            })
+            .collect();
+        let json = format!(
+            "{{\"stream\":\"noclobber-symlinks(real OS)\",\"script\":{},\"directory\":{},\"observed\":{}}}",
+            json_str(&format!("set -C; {{ :; }} > {}", lname(*name))),
+            yv_harness::json_str_list(&shown),
+            json_str(&observed)
+        );
+        e.w.count("stream:noclobber-symlinks(real OS)");
+        e.w.push(&term, &json, &[], Some(format!("link:{i}")));
+    }
+    let _ = std::fs::remove_dir_all(&scratch);
 }
 
 fn main() {
@@ -1606,6 +1861,42 @@ fn main() {
                 ],
             ),
             (
+                "asynchronous",
+                vec![
+                    Item::Cmd(Kind::Async, 0, vec![rd(1, File(Fop::Out, Some(4))), rd(3, File(Fop::In, Some(3)))]),
+                    Item::Cmd(Kind::Async, 1, vec![rd(0, File(Fop::In, Some(5)))]),
+                    Item::Cmd(Kind::Async, 2, vec![rd(0, Here("h\n".into())), rd(1, Dup(false, Darg::Fd(2)))]),
+                    Item::Group(Kind::Group, 0, vec![rd(3, File(Fop::In, Some(3)))], vec![Item::Cmd(Kind::Async, 0, vec![rd(3, Dup(true, Darg::Close))])]),
+                    Item::Cmd(Kind::Async, 0, vec![]),
+                ],
+            ),
+            (
+                "errexit-redirection-fails",
+                vec![
+                    Item::Errexit(true),
+                    reg(vec![rd(3, File(Fop::In, Some(3)))]),
+                    Item::Group(Kind::Group, 1, vec![rd(4, File(Fop::Out, Some(4)))], vec![reg(vec![]), reg(vec![rd(0, File(Fop::In, Some(5)))]), reg(vec![])]),
+                    reg(vec![]),
+                ],
+            ),
+            (
+                "errexit-kinds",
+                vec![
+                    Item::Errexit(true),
+                    Item::Cmd(Kind::Async, 0, vec![rd(0, File(Fop::In, Some(5)))]),
+                    Item::Cmd(Kind::Subshell, 0, vec![rd(3, File(Fop::In, Some(3)))]),
+                    Item::Errexit(false),
+                    Item::Cmd(Kind::Function, 0, vec![rd(0, File(Fop::In, Some(5)))]),
+                    Item::Errexit(true),
+                    dot(true, vec![rd(3, File(Fop::In, Some(3)))], DotTarget::Script(0), vec![Item::Cmd(Kind::Empty, 0, vec![rd(0, File(Fop::In, Some(5)))]), reg(vec![])]),
+                    reg(vec![]),
+                ],
+            ),
+            (
+                "errexit-not-found",
+                vec![Item::Errexit(true), reg(vec![]), Item::Cmd(Kind::NotFound, 0, vec![rd(3, File(Fop::In, Some(3)))]), reg(vec![])],
+            ),
+            (
                 "exec-with-operand",
                 vec![
                     reg(vec![]),
@@ -1714,6 +2005,8 @@ fn main() {
         let ctx = if r.chance(1, 2) { FILE } else { CMD };
         e.emit("long-lists", &init, &items, &ctx, &[]);
     }
+    // 5. noclobber through symbolic links, on the real OS
+    link_stream(&mut e, args.seed);
     let discarded = e.discarded;
     e.w.finish(&format!(
         "scripts of commands (8 kinds) with redirection lists, limit changes and noclobber switches on the \
